@@ -487,7 +487,8 @@ def build_evidence(prop, tier, seed, contracts, all_obs, by_name, proved, infos,
             "undecided": undecided,
             "exhaustive": False,
         },
-        "assumptions": sorted("assumed contract of " + u for u in N.USED) + [
+        "assumptions": sorted((u if u.startswith(("matrix layer", "lemma", "ghost contract")) else "assumed contract of " + u)
+                              for u in N.USED) + [
             "floats are reals", "numpy int64 index arithmetic does not overflow"],
         "wall_s": round(wall, 2),
         "violations": len(violations),
